@@ -3656,6 +3656,9 @@ static sexp sexp_read_raw_depth (sexp ctx, sexp in, sexp *shares, int depth) {
             sexp_fx_add(sexp_vector_data(*shares)[sexp_vector_length(*shares)-1],
                         sexp_make_fixnum(16))) {
           res = sexp_read_error(ctx, "reader label out of order", tmp, in);
+        } else if (c2 + 1 < (int)sexp_vector_length(*shares)
+                   && sexp_vector_data(*shares)[c2] != SEXP_VOID) {
+          res = sexp_read_error(ctx, "duplicate reader label", tmp, in);
         } else {
           if (c2 + 1 >= (int)sexp_vector_length(*shares)) {
             tmp2 = sexp_make_vector(ctx, sexp_make_fixnum(sexp_vector_length(*shares)*2), SEXP_VOID);
